@@ -207,6 +207,7 @@ fn main() {
         let s = desync::scheduler::scheduler();
         s.set_max_threads(0);
         s.despawn_threads_if_overloaded();
+        run::shutdown_workers();
         return;
     }
     // a stuck run leaves threads blocked forever inside the crate: do not try to join anything
